@@ -143,9 +143,55 @@ def check_listing(res, text, v=None):
             return None
         got = out
     res.outcome(repr(want) + ('!' if lexerr else ''))
+    if lexerr is None:
+        other_parsers(res, text, want)
     if lexerr is not None:
         failed_listing(res, text, want)
     return got if lexerr is None else None
+
+
+_two = [None]
+runner.TASK_INIT.append(lambda: _two.__setitem__(0, None))
+
+
+def other_parsers(res, text, want):
+    """(a) a listing consumed step by step while ANOTHER SqParser object lists something else in between; (b) the listing of a text
+    that a parser with a parse cache has parsed before."""
+    api = snapshot.api()
+    if _two[0] is None:
+        pc = api.new_parser()
+        pc.parse_cache = {}
+        _two[0] = (api.new_parser(), api.new_parser(), pc)       # constructed, not cloned: whatever constructors share is shared
+    pa, pb, pc = _two[0]
+    try:
+        it = iter(pa.list_names(text))
+        got = []
+        first = next(it, None)
+        if first is not None:
+            got.append(first)
+        inter = list(pb.list_names('zz + qq'))
+        got.extend(it)
+    except Exception as e:  # noqa
+        got, inter = ['<%s>' % type(e).__name__], ['zz', 'qq']
+    res.count('listings')
+    if got != want or inter != ['zz', 'qq']:
+        res.violation('listing:two-parsers', 'a listing consumed step by step is disturbed by a listing made on another SqParser object',
+                      {'text': text, 'expected': repr(want), 'observed': repr(got) + ' / other parser: ' + repr(inter)})
+        return
+    if len(pc.parse_cache) > 2000:
+        pc.parse_cache.clear()
+    try:
+        pc.parse(text)
+    except Exception:  # noqa
+        pass
+    try:
+        got = list(pc.list_names(text))
+    except Exception as e:  # noqa
+        got = ['<%s>' % type(e).__name__]
+    res.count('listings')
+    if got != want:
+        res.violation('listing:after-cached-parse', 'list_names of a text that a caching parser has parsed before differs from the identifiers in the text',
+                      {'text': text, 'expected': repr(want), 'observed': repr(got)})
 
 
 def failed_listing(res, text, seen):
